@@ -14,7 +14,9 @@ from model_c09 import Model
 ITEMS = ["i0 a", "i1 b", "i2 ab", "i3"]
 
 GATE = r"""#!/bin/sh
-# usage: gate.sh TAG n q plus
+# usage: gate.sh TAG n q plus...   ({+n} expands to one word per selected item)
+tag=$1; n=$2; q=$3; shift 3; plus="$*"
+set -- "$tag" "$n" "$q" "$plus"
 echo "start $$ $1|$2|$3|$4" >> "$C20_DIR/log"
 echo "OUT $1|$2|$3|$4"
 case "$C20_MODE" in
